@@ -68,6 +68,9 @@ INPLACE_METHODS = {
 }
 CONTAINER_MUTATORS = set(['pop', 'update', 'clear', 'setdefault', 'popitem', 'move_to_end', 'append', 'extend',
                           'insert', 'remove', 'sort', 'reverse', 'addkey', '__setitem__', '__delitem__'])
+NP_MASKED_CTORS = {'ma.masked_where': 1, 'ma.masked_invalid': 0, 'ma.masked_equal': 0, 'ma.masked_not_equal': 0, 'ma.masked_values': 0,
+                   'ma.masked_greater': 0, 'ma.masked_greater_equal': 0, 'ma.masked_less': 0, 'ma.masked_less_equal': 0,
+                   'ma.masked_inside': 0, 'ma.masked_outside': 0, 'ma.masked_object': 0}
 NP_INPLACE_FUNCS = {'put': 0, 'place': 0, 'copyto': 0, 'putmask': 0, 'ma.putmask': 0, 'fill_diagonal': 0,
                     'put_along_axis': 0, 'random.shuffle': 0}
 # methods that mutate a *file* by contract (frozen, confirmed by reading core/_files.py)
@@ -322,6 +325,18 @@ class Prov(object):
                 v = argvals[NP_INPLACE_FUNCS[npf]]
                 if v[0] in ('VIEW', 'SAME'):
                     self.emit('inplace-call', c, stmt, v, extra='np.' + npf)
+                return FRESH
+            if npf in NP_MASKED_CTORS:
+                # np.ma.masked_*(…, copy=True) by default; with copy=False the result is a view of the array argument and, when that
+                # argument is already masked, the new condition is OR-ed into its mask array in place
+                cp = kw(c, 'copy')
+                pos = NP_MASKED_CTORS[npf]
+                arr = argvals[pos] if len(argvals) > pos else kwvals.get('a', kwvals.get('x', UNK))
+                if cp is not None and not (isinstance(cp, ast.Constant) and cp.value is True):
+                    if arr[0] in ('VIEW', 'SAME'):
+                        self.emit('inplace-call', c, stmt, arr, extra='np.%s(copy=False) writes the condition into the mask of its argument' % npf)
+                        return ('VIEW', arr[1])
+                    return FRESH if arr[0] == 'FRESH' else UNK
                 return FRESH
             if npf in NP_VIEW_FUNCS:
                 if npf == 'array' or not argvals:
